@@ -142,8 +142,9 @@ Definition cleanup (v : variant) : blk :=
             (seq (when (owner v) rmfile_pid) (when (fun s => noted s && lock s) (emit Unlock)))).
 
 (* TaskRunner.handle_error(code, _): the caller continues with SystemExit(1) *)
+(* (Guarded also has fixes/C10-5.diff: no failure marker once the success marker exists) *)
 Definition handle_error (v : variant) (c : Z) : blk :=
-  seq (when (owner v) (emit (WriteFailed c))) (cleanup v).
+  seq (when (fun s => owner v s && (negb (guarded v) || negb (done s))) (emit (WriteFailed c))) (cleanup v).
 
 (* the interpreter's exit phase *)
 Definition exit_phase (v : variant) : blk := when atexit (cleanup v).
